@@ -55,6 +55,7 @@ type SMT struct {
 	lines     []string // the function's definition / assumption stream
 	owners    []int    // per line: index of the root-function block that emitted it (-1 = global)
 	curOwner  int
+	defs      map[string]string // name -> defining term, for Slice/Int abbreviations
 	nfresh    int
 	declared  map[string]bool
 	funcSorts map[string]string // prelude function name -> result sort (for documentation only)
@@ -98,6 +99,12 @@ func (s *SMT) define(prefix, sortName string, t Term) Term {
 	s.nfresh++
 	n := smtName(fmt.Sprintf("%s!%d", prefix, s.nfresh))
 	s.emit(fmt.Sprintf("(define-fun %s () %s %s)", n, sortName, t))
+	if sortName == "Slice" {
+		if s.defs == nil {
+			s.defs = map[string]string{}
+		}
+		s.defs[n] = t
+	}
 	return n
 }
 
